@@ -196,6 +196,8 @@ def handle (line : String) : String :=
   -- `openat(O_NOFOLLOW)` (Properties/C17 `open_no_follow`, `open_flags_never_follow`), so every
   -- interleaving is contained; the implementation side reports an escape through its oracle.
   | "race" :: _ => "race:contained"
+  -- a case the implementation driver had to abandon (reported through its oracle)
+  | "aborted" :: _ => "aborted"
   | "ops" :: fs :: items =>
     match parseFS fs with
     | some fs =>
